@@ -170,6 +170,67 @@ def result_exprs(arm_body):
     return out
 
 
+def check_diagonal(mm, rep):
+    """R16.1 (diagonal): an arm for (V, V) that answers with one of its operands as it stands is symmetric only if the two
+    operands agree on every component: each field of V is either compared equal on the way (`f_l == f_r`) or, for
+    type-variable fields, unified by an emitted Equality(f_l, f_r)."""
+    n = 0
+    ordinals = {}
+    for V, fields in mm.variant_fields.items():
+        if V in ("Equal", "Conflict") or not fields:
+            continue
+        arms = [a for a in mm.select(V, V) if not a.delegate and any(l == {V} and r == {V} for l, r in a.alts)]
+        for arm in arms:
+            p = arm.node["pat"]
+            tops = p["pats"] if p.get("p") == "Or" else [p]
+            tup = next((t for t in tops if t.get("p") == "Tuple" and len(t["pats"]) == 2), None)
+            if tup is None:
+                continue
+            lb = {path[-1][1]: lid for lid, (nm, path) in F.pat_bindings(tup["pats"][0]).items() if path}
+            rb = {path[-1][1]: lid for lid, (nm, path) in F.pat_bindings(tup["pats"][1]).items() if path}
+            for kind, node, ps in result_exprs(arm.node["body"]):
+                if kind not in ("expression", "equalities", "judgements", "new") or not node["args"]:
+                    continue
+                who = F.local_of(F.strip(node["args"][0]))
+                if who not in (mm.left, mm.right):
+                    continue
+                n += 1
+                covered = set()
+                # comparisons known to hold here
+                for cond, holds in T.path_conditions(ps, node):
+                    for x, _ in F.walk(cond):
+                        if x.get("k") == "Binary" and ((x["op"] == "Eq" and holds) or (x["op"] == "Ne" and not holds)):
+                            a, b2 = F.local_of(F.strip(x["l"])), F.local_of(F.strip(x["r"]))
+                            for f in fields:
+                                if {a, b2} == {lb.get(f), rb.get(f)} and None not in (a, b2):
+                                    covered.add(f)
+                # equalities emitted with this result
+                for c, _ in F.walk(node):
+                    if c.get("k") == "Call" and F.strip_generics(F.callee_def(c) or "").endswith("unification::Equality::new") and len(c["args"]) == 2:
+                        a, b2 = F.local_of(F.strip(c["args"][0])), F.local_of(F.strip(c["args"][1]))
+                        for f, ty in fields.items():
+                            if ty.endswith("TypeVariable") and {a, b2} == {lb.get(f), rb.get(f)} and None not in (a, b2):
+                                covered.add(f)
+                # equalities built into a local vector handed to the result
+                for c, _ in F.walk(arm.node["body"]):
+                    if c.get("k") == "Call" and F.strip_generics(F.callee_def(c) or "").endswith("unification::Equality::new") and len(c["args"]) == 2 and kind in ("equalities", "new"):
+                        a, b2 = F.local_of(F.strip(c["args"][0])), F.local_of(F.strip(c["args"][1]))
+                        for f, ty in fields.items():
+                            if ty.endswith("TypeVariable") and {a, b2} == {lb.get(f), rb.get(f)} and None not in (a, b2):
+                                covered.add(f)
+                missing = sorted(set(fields) - covered)
+                ordinals[V] = ordinals.get(V, 0) + 1
+                rep.oblige(
+                    not missing,
+                    "R16.1",
+                    f"diagonal:{V}:{'left' if who == mm.left else 'right'}#{ordinals[V]}",
+                    F.loc(node["span"]),
+                    f"merge({V}, {V}) answers with its {'left' if who == mm.left else 'right'} operand as it stands although the operands may differ in {missing} (neither compared equal on this path nor unified by an equality): merge(a, b) and merge(b, a) give different types",
+                    sample={"rule": "R16.1", "constructor": V, "returns": "left" if who == mm.left else "right", "components_agreeing": sorted(covered)},
+                )
+    rep.floor("R16.1", n, 3, "diagonal arms answering with one operand")
+
+
 def check_absorption(mm, rep):
     """R16.3"""
     L, R = mm.left, mm.right
@@ -299,6 +360,7 @@ def check(fx, rep, tier):
     rep.fn(mm.fn["def"])
     rep.floor("R16.1", len(mm.arms), 15, "arms of merge")
     check_mirrors(mm, rep)
+    check_diagonal(mm, rep)
     usages, table = usage_table(fx, rep, "R16.2")
     if table is not None:
         check_usage_laws(fx, rep, "R16.2", usages, table, want_upper_bound=False)
